@@ -49,11 +49,33 @@ pub fn put_chunks<K: HKey>(cas: &Cas<K>, key: K, chunks: &[&[u8]], finish: bool)
     }
 }
 
+/// A transaction abandoned by unwinding: the caller panics while the transaction is alive (the panic is caught at the
+/// boundary, as a server's per-request handler would).
+pub fn abandon_by_panic<K: HKey>(cas: &Cas<K>, key: K, chunks: &[&[u8]]) -> Result<(), String> {
+    let r = catch(|| -> Result<(), String> {
+        let mut tx = cas.put(key).map_err(|e| err_chain(&e))?;
+        for c in chunks {
+            tx.write(c).map_err(|e| err_chain(&e))?;
+        }
+        std::panic::panic_any(AbandonMarker);
+    });
+    match r {
+        Ok(r) => r,
+        // our own marker: the transaction was dropped during unwinding, as intended
+        Err(p) if p == "panic (non-string payload)" => Ok(()),
+        Err(p) => Err(format!("PANIC: {p}")),
+    }
+}
+
+struct AbandonMarker;
+
 pub fn apply_op<K: HKey>(cas: &Cas<K>, op: &Op) -> Result<Ret, String> {
     match *op {
         Op::Put { k, c, ch } => {
             put_chunks(cas, K::make(k).unwrap(), &keys::chunks(keys::content(c), ch), true).map(|_| Ret::Unit)
         }
+        // chunking 5 = written in one piece, then abandoned by unwinding instead of an ordinary drop
+        Op::Abort { k, c, ch: 5 } => abandon_by_panic(cas, K::make(k).unwrap(), &keys::chunks(keys::content(c), 0)).map(|_| Ret::Unit),
         Op::Abort { k, c, ch } => {
             put_chunks(cas, K::make(k).unwrap(), &keys::chunks(keys::content(c), ch), false).map(|_| Ret::Unit)
         }
